@@ -125,6 +125,29 @@ func evalPathsDeep(fn *ssa.Function, cfg pathCfg, visit func(assign map[string]b
 						}
 					}
 				}
+				// a comparison of integers that are constants along this path (the first test of a
+				// counted loop over a literal table)
+				switch x.Op {
+				case token.LSS, token.LEQ, token.GTR, token.GEQ, token.EQL, token.NEQ:
+					if a, okA := intAlong(x.X, fr, 0); okA {
+						if b, okB := intAlong(x.Y, fr, 0); okB {
+							switch x.Op {
+							case token.LSS:
+								return a < b, true
+							case token.LEQ:
+								return a <= b, true
+							case token.GTR:
+								return a > b, true
+							case token.GEQ:
+								return a >= b, true
+							case token.EQL:
+								return a == b, true
+							case token.NEQ:
+								return a != b, true
+							}
+						}
+					}
+				}
 			case *ssa.Parameter:
 				if a := paramArg(x); a != nil {
 					return evalV(a, nil, depth+1)
@@ -254,7 +277,8 @@ func evalPathsDeep(fn *ssa.Function, cfg pathCfg, visit func(assign map[string]b
 				if nm := cfg.classify(ins); nm != "" {
 					if fr.on[b] >= 2 {
 						if cfg.starLoops {
-							return true
+							// the path so far is handed to the visitor (no return reached)
+							return k(ev, nil)
 						}
 						why = "an event lies inside a loop"
 						return false
@@ -308,15 +332,20 @@ func evalPathsDeep(fn *ssa.Function, cfg pathCfg, visit func(assign map[string]b
 					return true
 				case *ssa.If:
 					if fr.on[b] >= 2 {
-						// the second evaluation of a loop condition is a new value: what was decided
-						// for the first does not bind it
-						if base, _ := atomOf(x.Cond, fr); base != nil {
-							if old, had := decided[base]; had {
+						// the second evaluation of a loop condition is a new value: neither what was
+						// decided for the first nor what was folded from the loop's initial values
+						// binds it — unless it is a recognised guard
+						if _, _, isLeaf := cfg.leaf(x.Cond); !isLeaf {
+							base, _ := atomOf(x.Cond, fr)
+							old, had := decided[base]
+							if had {
 								delete(decided, base)
-								okB := enter(b.Succs[0], fr, depth, ev, k) && enter(b.Succs[1], fr, depth, ev, k)
-								decided[base] = old
-								return okB
 							}
+							okB := enter(b.Succs[0], fr, depth, ev, k) && enter(b.Succs[1], fr, depth, ev, k)
+							if had {
+								decided[base] = old
+							}
+							return okB
 						}
 					}
 					if v, known := evalV(x.Cond, fr, 0); known {
@@ -371,6 +400,53 @@ func evalPathsDeep(fn *ssa.Function, cfg pathCfg, visit func(assign map[string]b
 		}
 	}
 	return
+}
+
+// intAlong: the integer value of v when it is a constant along the path of fr — a constant, a
+// φ-node whose block was entered exactly once on the path (resolved by the predecessor), sums and
+// differences of such.
+func intAlong(v ssa.Value, fr *pathFrame, depth int) (int64, bool) {
+	if depth > 4 || v == nil {
+		return 0, false
+	}
+	switch x := v.(type) {
+	case *ssa.Const:
+		return constInt(x)
+	case *ssa.Convert:
+		return intAlong(x.X, fr, depth+1)
+	case *ssa.ChangeType:
+		return intAlong(x.X, fr, depth+1)
+	case *ssa.BinOp:
+		if x.Op == token.ADD || x.Op == token.SUB {
+			a, okA := intAlong(x.X, fr, depth+1)
+			b, okB := intAlong(x.Y, fr, depth+1)
+			if okA && okB {
+				if x.Op == token.ADD {
+					return a + b, true
+				}
+				return a - b, true
+			}
+		}
+	case *ssa.Phi:
+		if fr == nil || len(fr.path) == 0 || x.Parent() != fr.path[0].Parent() || fr.on[x.Block()] != 1 {
+			return 0, false
+		}
+		pb := x.Block()
+		for i := len(fr.path) - 1; i > 0; i-- {
+			if fr.path[i] == pb {
+				for k, pred := range pb.Preds {
+					if pred == fr.path[i-1] {
+						// the incoming value must not itself hang on this φ (a later iteration)
+						if c, isC := x.Edges[k].(*ssa.Const); isC {
+							return constInt(c)
+						}
+						return 0, false
+					}
+				}
+			}
+		}
+	}
+	return 0, false
 }
 
 func countEvents(ev []pathEvent, name string) int {
